@@ -461,7 +461,23 @@ impl Ctx {
                                     }
                                 }
                                 if !missing.is_empty() {
-                                    machinery_failure(&format!("non-deterministic verdict for {}[{}]: {:?} was reported once and not again in 8 re-executions", name, idx, missing));
+                                    // The harness owns every choice it makes (no clock, no RNG, the case is a function
+                                    // of its index, FIR order is canonicalised), and the subject has no threads, I/O or
+                                    // time: a verdict that does not come back on re-execution of the same case means the
+                                    // subject carried something over from an earlier call or instance (a `static`, a
+                                    // `thread_local!`, a cache keyed by address). What was observed was observed on the
+                                    // real code, so it stands as a violation - marked, because its replay file need not
+                                    // reproduce it in a fresh process. VERIF_STRICT_REPLAY=1 restores the hard error.
+                                    if std::env::var("VERIF_STRICT_REPLAY").map(|v| v == "1").unwrap_or(false) {
+                                        machinery_failure(&format!("non-deterministic verdict for {}[{}]: {:?} was reported once and not again in 8 re-executions", name, idx, missing));
+                                    }
+                                    for k in &missing {
+                                        if let Some(v) = l.violations.get_mut(k) {
+                                            if !v.detail.contains("[not reproduced") {
+                                                v.detail.push_str(" [not reproduced in 8 re-executions of the same case in this process: the verdict depends on what ran before, i.e. the subject keeps state outside the value under observation]");
+                                            }
+                                        }
+                                    }
                                 }
                             }
                         }
